@@ -377,12 +377,18 @@ impl Layer {
         // names and deserialize to a vec; that would not be a one-liner, though.
         let contents: BTreeMap<Name, PathBuf> = plist::from_file(&contents_path)
             .map_err(|source| LayerLoadError::ParsePlist { name: CONTENTS_FILE, source })?;
-        // each glyph is stored in a file directly inside the layer directory
-        if let Some((name, path)) = contents.iter().find(|(_, path)| plain_name(path).is_none()) {
-            return Err(LayerLoadError::InvalidGlyphFileName {
-                name: name.to_string(),
-                path: path.clone(),
-            });
+        // each glyph is stored in a file of its own directly inside the layer directory
+        let mut seen_files = HashSet::new();
+        for (name, path) in &contents {
+            let Some(file_name) = plain_name(path) else {
+                return Err(LayerLoadError::InvalidGlyphFileName {
+                    name: name.to_string(),
+                    path: path.clone(),
+                });
+            };
+            if !seen_files.insert(file_name) {
+                return Err(LayerLoadError::DuplicateGlyphFileName(path.clone()));
+            }
         }
         let path_set = contents.values().map(|p| p.to_string_lossy().to_lowercase()).collect();
 
